@@ -230,11 +230,38 @@ void vh_distinct(const char *set, const char *fmt, ...) {
   cunlock();
 }
 
-void vh_finish(void) {
+void vh_reset_counts(void) {
   int i;
-  size_t j;
+  clock_();
+  nctr = 0;
+  for (i = 0; i < ndsets; i++) { free(dsets[i].h); dsets[i].h = NULL; dsets[i].n = dsets[i].cap = 0; }
+  ndsets = 0;
+  cunlock();
+}
+
+static void emit_counts(void);
+
+void vh_flush_counts(void) {
   if (out == NULL) vh_init(NULL);
   olock();
+  emit_counts();
+  fflush(out);
+  ounlock();
+  vh_reset_counts();
+}
+
+void vh_finish(void) {
+  if (out == NULL) vh_init(NULL);
+  olock();
+  emit_counts();
+  fprintf(out, "{\"t\":\"done\"}\n");
+  fflush(out);
+  ounlock();
+}
+
+static void emit_counts(void) {
+  int i;
+  size_t j;
   for (i = 0; i < nctr; i++)
     fprintf(out, "{\"t\":\"count\",\"k\":\"%s\",\"v\":%llu}\n", ctr[i].name, (unsigned long long)ctr[i].v);
   for (i = 0; i < ndsets; i++) {
@@ -248,9 +275,6 @@ void vh_finish(void) {
     }
     fprintf(out, "]}\n");
   }
-  fprintf(out, "{\"t\":\"done\"}\n");
-  fflush(out);
-  ounlock();
 }
 
 /* ------------------------------------------------------------ bytes */
